@@ -10,7 +10,9 @@ REG = dict(
          "`is_subtype`: reflexivity, top, bottom on every type; variance congruence of every unary constructor over all 361^2 argument pairs and of every binary "
          "constructor over all 73^4 argument 4-tuples; different head or arity => unrelated; transitivity over ALL triples (361^3 quick, 16 426^3 thorough) through "
          "the relation's bit matrix. Exhaustive within the depth bound; the 'unbounded, by proof' half of the quantifier is outside this technique and not claimed.",
-    note="Types are built by the hook from the crate's own constructors (Type::list, Type::int, ...); Error types are excluded (the statement is about well-formed types "
+    note="Use sites: 6 kinds of site (let / parameter / function return / closure return / struct field hint, early return) x 16 expressions of known static type x 12 hints are checked and run; "
+         "check must accept exactly the pairs an independent reference relation (NoValue bottom, covariant containers, contravariant parameters) calls subtypes, and the runtime hint check must accept the accepted ones. "
+         "Types are built by the hook from the crate's own constructors (Type::list, Type::int, ...); Error types are excluded (the statement is about well-formed types "
          "without checker errors). Depth >2 and other signatures are not covered.",
     design_ref="DESIGN.md §6 C14",
 )
@@ -108,10 +110,100 @@ def run(ctx):
     if not ctx.quick:
         n_, pairs_, t_ = transitivity(ctx, d1)
         report(ctx, "trans", t_, d1)
-    ctx.add(states=states + n1, transitions=trans, nontrivial=states + n1 - 6)
+    n_sites = use_sites(ctx)
+    ctx.add(states=states + n1 + n_sites, transitions=trans + 2 * n_sites, nontrivial=states + n1 - 6 + n_sites)
     ctx.sample({"law": "contravariant:Fun1", "instance": "Fun<(Any), NoValue> <: Fun<(Int), Int>  iff  Int <: Any and NoValue <: Int"})
     ctx.sample({"law": "covariant:Result", "instance": "Result<List<NoValue>, Int> <: Result<List<Int>, Any>"})
     ctx.sample({"law": "transitive", "instance": f"all {n}^3 triples through the {n}x{n} bit matrix of the real is_subtype ({pairs} related pairs)"})
     return (f"types = every term of depth<=1 over 6 leaves ({n1}) and depth<=2 over {d2.split(':')[1]} leaves ({n2}); laws: reflexive/top/bottom on each, unary-constructor variance on all "
             f"{n1}^2 pairs (+ Fun1 with a 3x3 result grid), binary-constructor variance on all 73^4 4-tuples, head/arity mismatch on all pairs, transitivity on all {n}^3 triples. "
             "states = distinct types; transitions = is_subtype law evaluations; non-trivial = non-leaf types.")
+
+# ---------------------------------------------------------------------------------------------------------------------
+# The relation at its use sites: wherever the checker (and the runtime hint check) asks "is the type of this expression a
+# subtype of that hint", the answer must be the documented relation, in the right direction.
+
+NV = ("NoValue",)
+
+
+def T(name, *args):
+    return (name,) + args
+
+
+def ref_subtype(a, b):
+    """Reference relation on the small type terms used below, written from the statement: NoValue is bottom, user types and
+    tuples are covariant, function types are contravariant in parameters and covariant in the result, everything else by name."""
+    if a == NV:
+        return True
+    if a[0] != b[0] or len(a) != len(b):
+        return False
+    if a[0] == "Fun":
+        (pa, ra), (pb, rb) = a[1:], b[1:]
+        return len(pa) == len(pb) and all(ref_subtype(y, x) for x, y in zip(pa, pb)) and ref_subtype(ra, rb)
+    return all(ref_subtype(x, y) for x, y in zip(a[1:], b[1:]))
+
+
+def hint_src(t):
+    if t[0] == "Tuple":
+        return "(" + ", ".join(hint_src(x) for x in t[1:]) + ("," if len(t) == 2 else "") + ")"
+    if t[0] == "Fun":
+        return "Fun<(" + ", ".join(hint_src(x) for x in t[1]) + ("," if len(t[1]) == 1 else "") + "), " + hint_src(t[2]) + ">"
+    return t[0] + ("<" + ", ".join(hint_src(x) for x in t[1:]) + ">" if len(t) > 1 else "")
+
+
+INT, STR = T("Int"), T("String")
+EXPRS = [  # (source, static type)
+    ("1", INT), ('"s"', STR), ("None", T("Option", NV)), ("Some(1)", T("Option", INT)), ('Some("s")', T("Option", STR)),
+    ("[]", T("List", NV)), ("[1]", T("List", INT)), ('["s"]', T("List", STR)), ("[[]]", T("List", T("List", NV))), ("[[1]]", T("List", T("List", INT))),
+    ("(1, [])", T("Tuple", INT, T("List", NV))), ("(1, [2])", T("Tuple", INT, T("List", INT))),
+    ("fun(a: List<Int>): Int { 1 }", T("Fun", (T("List", INT),), INT)), ("fun(a: List<NoValue>): Int { 1 }", T("Fun", (T("List", NV),), INT)),
+    ("fun(a: Int): Option<NoValue> { None }", T("Fun", (INT,), T("Option", NV))), ("fun(a: Int): Option<Int> { Some(a) }", T("Fun", (INT,), T("Option", INT))),
+]
+HINTS = [INT, STR, T("Option", INT), T("Option", STR), T("List", INT), T("List", STR), T("List", T("List", INT)), T("Tuple", INT, T("List", INT)),
+         T("Fun", (T("List", INT),), INT), T("Fun", (T("List", NV),), INT), T("Fun", (INT,), T("Option", INT)), T("Fun", (INT,), T("Option", NV))]
+SITES = {
+    "let hint": "let x: {H} = {E}\nprintln(\"done\")\n",
+    "function return hint": "fun f(): {H} {{ {E} }}\nf()\nprintln(\"done\")\n",
+    "parameter hint": "fun g(p: {H}): Int {{ 0 }}\ng({E})\nprintln(\"done\")\n",
+    "closure return hint": "let c = fun(): {H} {{ {E} }}\nc()\nprintln(\"done\")\n",
+    "struct field hint": "struct Bx {{ v: {H} }}\nlet b = Bx{{ v: {E} }}\nprintln(\"done\")\n",
+    "early return against the return hint": "fun f(q: Bool): {H} {{ if q {{ return {E} }} {E} }}\nf(True)\nprintln(\"done\")\n",
+}
+
+
+def use_sites(ctx):
+    cases = []
+    for site, tmpl in SITES.items():
+        for e, te in EXPRS:
+            for h in HINTS:
+                cases.append((site, e, te, h, tmpl.replace("{H}", hint_src(h)).replace("{E}", e).replace("{{", "{").replace("}}", "}")))
+    chk = ctx.pool.map([{"op": "front", "src": c[4], "want": ["check"]} for c in cases], batch=32, timeout=120)
+    run = ctx.pool.map([{"op": "run", "src": c[4], "tick_limit": 100000} for c in cases], batch=32, timeout=120)
+    n_sub = n_not = 0
+    for (site, e, te, h, src), c, r in zip(cases, chk, run):
+        if c.get("parse_errors") or "diagnostics" not in c:
+            raise Machinery(f"use-site program does not parse/check: {src!r} {str(c)[:200]}")
+        errors = [d["message"] for d in c["diagnostics"] if d["severity"] == "error"]
+        expected = ref_subtype(te, h)
+        kinds = f"{te[0]} where {h[0]} is expected"
+        outcome = (r.get("outcome") or {}).get("kind")
+        msg = (r.get("outcome") or {}).get("message", "")
+        if expected:
+            n_sub += 1
+            if errors:
+                ctx.violation(f"{site}: a subtype is rejected by check ({kinds})", {"src": src, "expression_type": hint_src(te) if te != NV else "NoValue", "hint": hint_src(h), "check_errors": errors},
+                              cli_cmd="garden check <file with src>")
+            elif outcome != "ok" or r.get("stdout") != "done\n":
+                ctx.violation(f"{site}: a subtype is rejected at run time ({kinds})", {"src": src, "outcome": r.get("outcome"), "stdout": r.get("stdout")}, cli_cmd="garden run <file with src>")
+        else:
+            n_not += 1
+            if not errors:
+                ctx.violation(f"{site}: a type that is not a subtype is accepted by check ({kinds})", {"src": src, "expression_type": hint_src(te), "hint": hint_src(h), "run_outcome": r.get("outcome")},
+                              cli_cmd="garden check <file with src>")
+    ctx.outcome("use sites: subtype pairs", n_sub)
+    ctx.outcome("use sites: non-subtype pairs", n_not)
+    ctx.bound("use_site_programs", len(cases))
+    if n_sub < 100 or n_not < 100:
+        raise Machinery(f"vacuous use-site exploration: {n_sub} subtype / {n_not} non-subtype cases")
+    ctx.sample({"site": "parameter hint", "src": SITES["parameter hint"].replace("{H}", "Fun<(List<Int>,), Int>").replace("{E}", "fun(a: List<NoValue>): Int { 1 }").replace("{{", "{").replace("}}", "}")})
+    return len(cases)
